@@ -172,6 +172,8 @@ def injFile (w : World) (src : Str) (st : Inj) : Except PyErr (Inj × Bool) :=
   | some data =>
     if fileName.length > 8 then .ok ({ st with l := onBeforeBeginOfFile st.l (str "-- too long name : " ++ cleanSrc) }, false)
     else if fileExtension.length > 3 then .ok ({ st with l := onBeforeBeginOfFile st.l (str "-- too long extension : " ++ cleanSrc) }, false)
+    else if (fileName ++ fileExtension).any (· ≥ 128) then
+      .ok ({ st with l := onBeforeBeginOfFile st.l (str "-- not an ascii name : " ++ cleanSrc) }, false)
     else
       let (kind, flag, storedExt) := dispatch fileName fileExtension extWithOption
       match injWriteFile fileName storedExt kind flag data 4 st with
@@ -260,6 +262,7 @@ structure RdState where
   l : DL
   mkdirs : List Str := []
   writes : List (Str × Bytes) := []
+  keep : Option Str := none     -- the archive being read: the extractor refuses to write over it
 
 def fileNameOf (e : Entry) : Str :=
   rstripBy isSpace (slice e.rec16 0 8) ++ [46] ++ rstripBy isSpace (slice e.rec16 8 11)
@@ -276,6 +279,7 @@ def readEntries (sd : Side) (bat : List Nat) (sidePath : Option Str) : List Entr
     | some dir =>
       let fname := fileNameOf e
       if fname.contains 47 || fname.contains 0 then ({ st with l := l }, some (.valueError "invalid.file.name"))
+      else if Tape.collides st.keep (pathJoin dir fname) then ({ st with l := l }, some (.valueError "would.overwrite.the.archive"))
       else if fname = [46] || fname = [46, 46] then ({ st with l := l }, some (.osError "IsADirectoryError"))
       else
         let data := readFileImpl sd bat e
@@ -315,6 +319,6 @@ def extract (fl : Flavour) (verbose : Bool) (archive : Str) (into : Option Str) 
   | .ok img =>
     let l : DL := { processing := 1, verbose := verbose }
     let l := match into with | some d => l.print (str "has into : " ++ d) | none => l
-    finishRead (readSides (some (Tape.targetDirOf archive into)) img 0 { l := l })
+    finishRead (readSides (some (Tape.targetDirOf archive into)) img 0 { l := l, keep := some archive })
 
 end Moto.Disk
